@@ -34,6 +34,19 @@ package api
 //@   replay api_entry_carries_request for entry-carries-request
 //@   ensures[entry-carries-request] e != nil && sc != nil ==> fresh(e) && e.ctx != nil && e.ctx.entry == e && e.sc == sc && e.ctx.Input.BatchCount == options.batchCount && e.ctx.Resource != nil && e.ctx.Resource.name == resource && e.ctx.Resource.flowType == options.entryType
 
+// the attachments of an entry are the entry's own copy: the map the caller handed in is never kept (a caller that reuses
+// its map for the next request must not change what a live entry carries — the hot-parameter slots re-read the attached
+// value when the entry exits)
+//@ func WithAttachments$1(opts)
+//@   props C06
+//@   requires opts != nil && (opts.attachments == nil || opts.attachments != data)
+//@   ensures[the-callers-map-is-copied-not-kept] opts.attachments != nil && (data != nil ==> opts.attachments != data)
+//@   ensures[same-map-object-or-a-new-one] opts.attachments == old(opts.attachments) || fresh(opts.attachments)
+//@   modifies opts.attachments, mapof(opts.attachments)
+//@   loop 1:
+//@     invariant[own-map] opts.attachments != nil && (data != nil ==> opts.attachments != data) && (opts.attachments == old(opts.attachments) || fresh(opts.attachments))
+//@     invariant[only-the-own-map-is-written] frame(mapof(opts.attachments), opts.attachments)
+
 // user options only write the options object they are applied to (and append to its argument list)
 //@ callback EntryOption(opts)
 //@   ensures opts.slotChain != nil ==> opts.slotChain.ctxPool != nil
